@@ -1030,6 +1030,7 @@ func runC12(res *hx.Result, rng *hx.Rng, tier string, outdir string) {
 		"valid / cut / wrong-object payloads, duplicate and conflicting registrations, terminate, floods, disconnects mid-message) against a server in a child process, then a probe client; " +
 		"volleys of authenticate calls with wrong / wrongly typed / empty / cut / huge credentials aimed at service 0 from authenticated and not yet authenticated connections, several volleys per server, " +
 		"then fresh clients with valid credentials that must authenticate and be answered by every object; clients gone before their answers are written on unix/tcp/tcps/pipe, then fresh clients on every transport; " +
+		"hostile dynamic values (zero-width element containers with huge counts, unknown / unclosed / deep / huge signatures) in authenticate, setProperty and property requests, and hostile peers on every listener (garbage, silence, half a TLS hello, held or closed), then fresh clients on every transport; " +
 		"non-trivial = the script contains a malformed or conflicting request; distinct by sha256 of the frames"
 	root := os.Getenv("VERIF_ROOT")
 	if root == "" {
@@ -1318,6 +1319,10 @@ func runC12(res *hx.Result, rng *hx.Rng, tier string, outdir string) {
 	// ---- clients gone before their answers are written, on every transport, then fresh clients on every transport (c12lost.go) ----
 	c12lost(res, rng, root, outdir, cfg, rounds)
 	phase("lost-replies")
+
+	// ---- hostile dynamic values in every request that carries one, hostile behaviour on every listener, then fresh clients (c12hostile.go) ----
+	c12hostile(res, rng, root, outdir, cfg, rounds)
+	phase("hostile-values-and-transports")
 
 	// ---- oracle-only scripts ----
 	for round := 0; round < rounds; round++ {
